@@ -360,7 +360,7 @@ class CFGBuilder:
                     self.g.add_edge(n, t, 'throw')
                 for t in frame.on_raise(GENEXIT):
                     self.g.add_edge(n, t, 'close')
-            elif kind in ('call', 'comp', 'subscr') and self.calls_raise:
+            elif kind in ('call', 'comp', 'subscr') and self.calls_raise and not _no_raise(node):
                 for t in frame.on_raise(ANY):
                     self.g.add_edge(n, t, 'exc')
         return cur
@@ -582,6 +582,14 @@ class CFGBuilder:
                 target = fr.normal(target)
             self.link(ends, target)
         return [after] if self.g.pred.get(after) else []
+
+
+_NO_RAISE = {'hasattr', 'isinstance', 'callable', 'id', 'issubclass'}
+
+
+def _no_raise(node):
+    """calls that cannot raise whatever their arguments are"""
+    return isinstance(node, ast.Call) and isinstance(node.func, ast.Name) and node.func.id in _NO_RAISE
 
 
 def _own(fnode):
